@@ -1,5 +1,6 @@
 import FastQr.Proofs.ScoreEq
-import FastQr.Proofs.Total
+import FastQr.Proofs.CandidateLight
+import FastQr.Proofs.ScoreBounds
 import FastQr.Finite.Col01
 /-
 C11 composed: every mask candidate of every placed matrix satisfies the hypotheses of `score_eq`
